@@ -6,6 +6,30 @@ HERE = os.path.dirname(os.path.dirname(os.path.abspath(__file__)))
 
 # property id -> (simulator, design section, technique, level text, level note)
 BUILT = {
+    "C03": (
+        "B", "5/C03",
+        "deterministic simulation: real Engine::process behind fault-injecting execution links (healthy/unhealthy/closed/missing, unknown exchange index), scripted strategy + risk refusals, trading toggles and commands; audit vs link logs vs in-flight marks after every event",
+        "Seeded search over engine event histories x strategy/risk outputs x execution-link fault patterns x trading-state toggles x the four commands. The real engine processes every event; after each one the requests actually received by every link, the audit's sent/failed/refused report, the fatal-error list and terminal flag, and the in-flight marks in EngineState are compared with what the scenario generated (S1-S7).",
+        "Trusted: the accounting oracle in sim_b.rs and the SimTx/strategy/risk stubs. The state after the event but before requests are sent is obtained by running the real update code on a clone (reference point for marks only). When strategy requests hit a fatal link error the engine omits the per-request output; the oracle accepts that and checks deliveries, marks and error count.",
+    ),
+    "C14": (
+        "B", "5/C14",
+        "deterministic simulation: seeded per-exchange market/account link drops and heals (partition / heal) fed through the real Engine; two-booleans-per-exchange health model + on-disconnect call log after every event",
+        "Seeded search over sequences of market items, account items and market/account reconnect notices across 1-4 exchanges from the all-reconnecting start, processed by the real engine; after each event every per-exchange flag, the global flag, the on-disconnect strategy call log and the audit's disconnect outputs are compared with a health model written from the statement.",
+        "Trusted: the 2-boolean model and the counting strategy stub. Quick and thorough use the synchronous engine feed; the reconnect combinators that produce the notices in a live system are exercised by C12's simulator.",
+    ),
+    "C15": (
+        "B", "5/C15",
+        "deterministic simulation: seeded interleavings of the fill stream and the priced market stream into one engine feed; independent PnL estimate evaluated after every event",
+        "Seeded search over interleavings of fills (open / increase / reduce / flip, with and without fees) and market events (public trades, top-of-book, late ones ignored by the data guard, non-priced kinds) on 1-3 instruments through the real Engine::process; after every event pnl_unrealised of every open position is compared with the documented estimate computed independently (P1 market refresh, P2 after fill, P3 unchanged otherwise).",
+        "Trusted: the estimate formula in sim_b.rs (tolerance 1e-9) and reading the current price through the public InstrumentDataState::price(). One recorded finding (opening fill with a fee leaves 0, pinned by unit tests) is matched narrowly.",
+    ),
+    "C19": (
+        "B", "5/C19",
+        "deterministic simulation: filtered cancel-orders / close-positions commands injected at seeded instants inside in-flight windows and under link faults; independent scope model + byte-identical outside-scope check",
+        "Seeded search over engine states produced by the run itself (several exchanges and underlyings; in-flight, open, partially filled, cancel-in-flight orders; long/short/no position; price known/unknown) x all filter shapes x both commands, also repeated before the first answer; the engine's requests are compared as multisets with a scope model computed from the instrument definitions, marks are checked, and everything outside the filter must be byte-identical.",
+        "Trusted: the scope model (sim_b.rs) and stubs as for C03. Close orders are compared on (exchange, instrument, side, price, quantity, market kind); client order ids only need to be unique.",
+    ),
     "C01": (
         "A", "5/C01",
         "deterministic simulation: seeded exchange scripts + faulty network (delay/reorder/dup/drop/stale snapshot) vs per-order lifecycle reference model, checked after every delivered message",
